@@ -29,8 +29,8 @@ RULE = ("BMS texts over the five layouts: header (title/artist/level/#BPM/#LNOBJ
         "bare CR line ends, trailing blank lines), 20 % read one or two other texts first in the same process (state kept "
         "between calls); non-trivial = a tempo object followed by a note, or a long note, or shuffled lines")
 ASSUMPTIONS = [
-    "read_file: Python's codecs line splitting (str.splitlines) is modelled by the harness, not verified; the model is "
-    "given the lines the file splits into",
+    "read_file: Python's codecs line splitting (str.splitlines on the decoded text) is modelled in Lean (pyLines: LF, CR, CRLF, "
+    "VT, FF, FS, GS, RS) and compared with the real BMSMap.read_file on every file case; the shift_jis codec is not modelled",
     "shift_jis codec, str.strip and float()/int() text parsing are modelled on plain decimal / hex text only",
     "channel-02 lines (time signatures) are outside the property's quantifier and are not generated",
 ]
@@ -309,6 +309,10 @@ def corpus():
            "#00222:01010101"]
     for eol in ("lf", "crlf", "cr"):
         c.append(dict(claim="read", layout="PMS", lines=txt, via=dict(mode="file", eol=eol, trail=(eol != "lf"))))
+    # a form feed inside a header value: Python's line splitter cuts there, the format does not (theorem
+    # read_file_splits_at_control_bytes); outside read_file_eq_denote, the model must still follow the code
+    c.append(dict(claim="read", layout="BME", lines=["#TITLE a\x0cb", "#BPM 120", "#00111:01"], via=dict(mode="file", eol="lf", trail=False)))
+    c.append(dict(claim="read", layout="BME", lines=["#BPM 120", "#00111:01\x1c#00112:01", "#00211:01"], via=dict(mode="file", eol="crlf", trail=True)))
     # state kept between reads: a table of the first text must not be visible to the second
     c.append(dict(claim="read", layout="BME", lines=["#BPM 120", "#00108:01", "#00111:0A"],
                   before=[dict(layout="BME", lines=["#BPM 100", "#BPM01 200", "#WAV0A k.wav", "#LNOBJ 0A", "#00108:01", "#00111:0A"])]))
@@ -560,20 +564,23 @@ def run(case, drv):
     lines_hex = [l.encode("shift_jis").hex() for l in lines_seen(case)]
     layout = case["layout"]
     impl = run_impl(case)
-    m = drv.call("c04.read", layout=layout, lines=lines_hex)
     tags = [layout]
     spec_hex = lines_hex
     file_lines_differ = False
     if (case.get("via") or {}).get("mode") == "file":
         tags.append("via:read_file:" + (case["via"].get("eol") or "lf"))
-        # the specification splits the file itself (LF / CRLF / bare CR); Python's splitter knows more separators
-        # (VT, FF, FS, GS, RS): a file holding one of those is outside the statement
+        # the model reads the FILE (`readFile`: Python's line splitting `pyLines` is part of the model); the
+        # specification splits the file itself (`fileLines`: LF / CRLF / bare CR).  Python's splitter knows more
+        # separators (VT, FF, FS, GS, RS): a file holding one of those is outside read_file_eq_denote
         fb = file_bytes(case["lines"], case["via"].get("eol", "lf"), case["via"].get("trail", False))
+        m = drv.call("c04.read_file", layout=layout, bytes=fb.hex())
         spec_hex = drv.call("c04.file_lines", bytes=fb.hex())["ok"]
         if spec_hex != lines_hex:
             file_lines_differ = True
             tags.append("file-lines-differ")
             spec_hex = lines_hex
+    else:
+        m = drv.call("c04.read", layout=layout, lines=lines_hex)
     den = drv.call("c04.denote", layout=layout, lines=spec_hex)["ok"]
     flags = den["flags"]
     d = den["den"]
